@@ -42,7 +42,7 @@ def build(cfg, N, mir_path=None, line=None):
                       lambda s2: [Outcome(s2, ret=T.r_err(1, "Eof"))])
 
     def s_into_enum(ex, st, callee, args, argv, f):
-        m = re.search(r"Into<(\w+)>>::into$", callee)
+        m = re.search(r"Into<(\w+)>>::into$", callee) or re.search(r"^<(\w+) as From<&\[u8\]>>::from$", callee)
         ty = m.group(1)
         cands = [fn for n, fn in funcs.items() if n.endswith("::from") and enum_last(fn.ret) == ty and fn.args and fn.args[0][1].replace(" ", "") == "&[u8]"]
         if len(cands) != 1:
@@ -108,7 +108,7 @@ def build(cfg, N, mir_path=None, line=None):
 
     extra = [
         (r"^(?:messages::)?message_type$", s_message_type),
-        (r"^<&\[u8\] as Into<(?:TalkerId|AisReportType)>>::into$", s_into_enum),
+        (r"^<&\[u8\] as Into<(?:TalkerId|AisReportType)>>::into$|^<(?:TalkerId|AisReportType) as From<&\[u8\]>>::from$", s_into_enum),
         (r"^<&\[u8\] as TryInto<Vec<u8, \d+>>>::try_into$", s_try_into_heapless),
         (r"^nom::error::Error::<&\[u8\]>::new$|^<nom::error::Error<&\[u8\]> as ParseError<&\[u8\]>>::from_error_kind$", s_nom_err_ctor),
         (r"^core::slice::<impl \[u8\]>::iter$", s_iter),
@@ -117,9 +117,10 @@ def build(cfg, N, mir_path=None, line=None):
     ]
     table = T.build_table(extra)
     ex = Executor(funcs, enums, structs, table)
+    ex.unroll = N + 2                  # loops over the line (explicit `for`/`while` in the parsers): unrolled, with an unwinding assertion
     ex.use_solver_pruning = False      # formulas over the line array are large; infeasible paths are harmless (their condition is unsatisfiable)
-    fparse = funcs.get("parse_nmea_sentence")
-    fchk = next((fn for n, fn in funcs.items() if n.endswith("::check_checksum")), None)
+    fparse = P.sentence_parser_fn(funcs)
+    fchk = P.checksum_fn(funcs)
     if fparse is None or fchk is None:
         raise Unsupported("parse_nmea_sentence / check_checksum not found in the MIR dump")
     st = State()
